@@ -93,7 +93,7 @@ def models(wd, tier, seed):
 FAM = dict(driver="csync", specdirs=["csync", "lib"], monitor="CsyncPTrace", property_of=PROPERTY_OF, models=models,
            n_random={"quick": 6000, "thorough": 300000},
            # M2: free-running acquire/release loops on 4 Ps (contends the mutexes' internal state lock)
-           modes={"quick": [("burst", "burst", 1500, 4)], "thorough": [("burst", "burst", 100000, 4)]},
+           modes={"quick": [("burst", "burst", 1500, 4)], "thorough": [("burst", "burst", 50000, 4)]},  # (about 300 events per burst: 4 trace files of ~3.7M events)
            x_specs=["csync/Mutex.tla", "csync/RWMutex.tla"], p_monitor="csync/CsyncP.tla",
            advisory=lambda wd, binp, seed, tier: x_conformance(wd, binp, seed, SCEN["quick"], nrand=100 if tier == "quick" else 2000),
            assumptions=["CsyncP encodes the statement (DESIGN §3 C01/C02 interpretation): 'waiting writer' = observed blocked",
